@@ -466,6 +466,50 @@ func chainBlock(n int, dense bool) *wire.MsgBlock {
 	return blk
 }
 
+// diamondBlock: d stacked diamonds.  The root has `fan` outputs; at every level `fan` middle transactions spend
+// one output of the previous tail each, and a new tail (again with `fan` outputs) spends output 0 of every middle
+// transaction.  The block lists the transactions in REVERSE topological order (children first).
+func diamondBlock(d, fan int) *wire.MsgBlock {
+	var z chainhash.Hash
+	hdr := wire.NewBlockHeader(1, &z, &z, 0, 0)
+	blk := wire.NewMsgBlock(hdr)
+	mk := func(lock uint32, ins []wire.OutPoint, nout int) *wire.MsgTx {
+		tx := wire.NewMsgTx(1)
+		for i := range ins {
+			tx.AddTxIn(wire.NewTxIn(&ins[i], nil))
+		}
+		for i := 0; i < nout; i++ {
+			tx.AddTxOut(wire.NewTxOut(int64(i), []byte{0x51}, wire.TokenData{}))
+		}
+		tx.LockTime = lock
+		return tx
+	}
+	var ext chainhash.Hash
+	ext[0] = 0xaa
+	root := mk(0, []wire.OutPoint{*wire.NewOutPoint(&ext, 0)}, fan)
+	txs := []*wire.MsgTx{root}
+	tail := root.TxHash()
+	lock := uint32(1)
+	for lvl := 0; lvl < d; lvl++ {
+		var mids []wire.OutPoint
+		for j := 0; j < fan; j++ {
+			m := mk(lock, []wire.OutPoint{*wire.NewOutPoint(&tail, uint32(j))}, 1)
+			lock++
+			txs = append(txs, m)
+			h := m.TxHash()
+			mids = append(mids, *wire.NewOutPoint(&h, 0))
+		}
+		t := mk(lock, mids, fan)
+		lock++
+		txs = append(txs, t)
+		tail = t.TxHash()
+	}
+	for k := len(txs) - 1; k >= 0; k-- {
+		blk.AddTransaction(txs[k])
+	}
+	return blk
+}
+
 func firstTxs(t []*bchutil.Tx, n int) []*bchutil.Tx {
 	if len(t) < n {
 		return t
@@ -799,28 +843,43 @@ func runWire(rng *vh.RNG) {
 			return map[string]interface{}{"family": "n transactions, tx k spends tx k-1, listed in reverse order; filter of eight 0xff bytes", "transactions": n}
 		}
 	})
-	// block scan, dense chain (tx k spends every earlier tx), reverse order: ramp with a time cap.
-	// The repaired scan makes about n^2/2 filter matches; the historical one 2^n.
-	{
+	// block scan ramps with a time cap, children listed before their parents, every transaction matching:
+	//  - dense chain (tx k spends one output of every earlier tx): the repaired scan makes about n^2/2 filter
+	//    matches; the historical one 2^n;
+	//  - stacked diamonds (review round 2): level i = `fan` transactions that each spend one output of the tail of
+	//    level i-1, plus a tail that spends all of them: fan^d different paths lead from the root to the last tail,
+	//    so a scan that re-expands a transaction once per PATH (instead of once) is exponential in d, while a
+	//    plain chain and a fan-in chain stay fast.
+	type rampFamily struct {
+		key, family string
+		from, to    int
+		build       func(n int) *wire.MsgBlock
+	}
+	ramps := []rampFamily{
+		{"chain", "tx k spends one output of every earlier tx; block lists the transactions in reverse topological order; filter = eight 0xff bytes, 1 hash function, BloomUpdateAll", 8, cfg.Scale(20, 22), func(n int) *wire.MsgBlock { return chainBlock(n, true) }},
+		{"diamonds2", "n stacked diamonds (two middle transactions per level, 3 transactions per diamond), children before parents; filter = eight 0xff bytes, 1 hash function, BloomUpdateAll", 8, cfg.Scale(24, 30), func(n int) *wire.MsgBlock { return diamondBlock(n, 2) }},
+		{"diamonds3", "n stacked 3-way diamonds (three middle transactions per level), children before parents; filter = eight 0xff bytes", 6, cfg.Scale(16, 20), func(n int) *wire.MsgBlock { return diamondBlock(n, 3) }},
+	}
+	for _, rf := range ramps {
 		const cap = 1500 * time.Millisecond
 		var prev time.Duration
 		var obs []interface{}
 		grew := 0
-		for n := 8; n <= cfg.Scale(20, 22); n += 2 {
-			mblk := chainBlock(n, true)
+		for n := rf.from; n <= rf.to; n += 2 {
+			mblk := rf.build(n)
 			raw := serBlock(mblk)
 			best := time.Duration(1 << 62)
 			var calls int
 			for rep2 := 0; rep2 < 3; rep2++ {
 				blk := bchutil.NewBlock(mblk)
 				fl := fullFilter(8)
-				rp := flReplay(fl, map[string]interface{}{"family": "n transactions, tx k spends one output of every earlier tx, listed in reverse topological order", "transactions": n, "block_hex": vh.Hex(raw)})
+				rp := flReplay(fl, map[string]interface{}{"family": rf.family, "size_parameter": n, "transactions": len(mblk.Transactions), "block_hex": vh.Hex(raw)})
 				wd.begin("bloom.GetMatchedIndices", rp)
 				t0 := cpuNow()
 				p, msg := vh.Catch(func() { calls = len(bloom.GetMatchedIndices(blk, bloom.LoadFilter(fl))) })
 				d := cpuNow() - t0
 				wd.end()
-				rep.Count("bloom.GetMatchedIndices/scale", fmt.Sprintf("chain%d", n), true)
+				rep.Count("bloom.GetMatchedIndices/scale", fmt.Sprintf("%s%d", rf.key, n), true)
 				if p {
 					rep.Violate("C08:bloom.GetMatchedIndices:panic", "GetMatchedIndices panicked: "+msg, rp())
 				}
@@ -831,7 +890,7 @@ func runWire(rng *vh.RNG) {
 					break
 				}
 			}
-			obs = append(obs, map[string]interface{}{"transactions": n, "block_bytes": len(raw), "t_us": best.Microseconds(), "matched": calls})
+			obs = append(obs, map[string]interface{}{"size_parameter": n, "transactions": len(mblk.Transactions), "block_bytes": len(raw), "t_us": best.Microseconds(), "matched": calls})
 			if prev > 0 && best > ratioFloor && float64(best) > 3.2*float64(prev) {
 				grew++
 			} else {
@@ -839,13 +898,13 @@ func runWire(rng *vh.RNG) {
 			}
 			if best > cap || grew >= 2 {
 				rep.Violate("C08:bloom.GetMatchedIndices:time",
-					fmt.Sprintf("block scan is super-polynomial on a reverse-topological spend chain: %d transactions (%d bytes) took %v; each two extra transactions multiply the time by > 3", n, len(raw), best),
-					map[string]interface{}{"entry": "bloom.GetMatchedIndices / bloom.NewMerkleBlock", "family": "tx k spends one output of every earlier tx; block lists the transactions in reverse topological order; filter = eight 0xff bytes, 1 hash function, BloomUpdateAll",
-						"transactions": n, "block_hex": vh.Hex(raw), "elapsed_ms": best.Milliseconds(), "cap_ms": cap.Milliseconds(), "ramp": obs})
+					fmt.Sprintf("block scan is super-polynomial (family %s): size parameter %d = %d transactions (%d bytes) took %v; each step of two multiplies the time by > 3 (or the cap was hit)", rf.key, n, len(mblk.Transactions), len(raw), best),
+					map[string]interface{}{"entry": "bloom.GetMatchedIndices / bloom.NewMerkleBlock", "family": rf.family,
+						"size_parameter": n, "transactions": len(mblk.Transactions), "block_hex": vh.Hex(raw), "elapsed_ms": best.Milliseconds(), "cap_ms": cap.Milliseconds(), "ramp": obs})
 				break
 			}
 			prev = best
 		}
-		rep.Extra["block_scan_ramp"] = obs
+		rep.Extra["block_scan_ramp_"+rf.key] = obs
 	}
 }
